@@ -10,7 +10,7 @@
    these on serix.API.Encode/Decode.
 
    Sids selects the catalogue entries of this TLC process (the runs are split over processes).          *)
-EXTENDS WireVals, Json
+EXTENDS WireProps, Json
 
 CONSTANTS Alphabet, MaxLen, Sids, Emit, ValDepth
 
@@ -35,77 +35,20 @@ Next == /\ mode = "bytes" /\ Len(p) < Limit(S)
         /\ UNCHANGED <<sid, mode>>
 Spec == Init /\ [][Next]_vars
 
-\* a failed conjunct names itself on stdout (TLC only reports the enclosing invariant)
-Chk(name, cond) == cond \/ (PrintT(<<"FAILED", name>>) /\ FALSE)
-
-(* ---------------------------------------------------------------- byte-string states
-   r0 / r1: what the plain / the validating decoder make of p                                          *)
-InScope(r) == r.ok /\ ~Oos(S, r.v)
-
-\* C02: a decoder never reports more bytes than it was given
-Bounded(r0, r1) == (r0.ok => r0.n <= Len(p)) /\ (r1.ok => r1.n <= Len(p))
-\* validation only rejects: what it accepts is what the plain decoder yields
-ValidationRestricts(r0, r1) == r1.ok => r0 = r1
-\* the result depends on the consumed prefix only
-PrefixOnly(r0, r1) == /\ (r0.ok /\ r0.n < Len(p)) => Dec(S, SubSeq(p, 1, r0.n), FALSE) = r0
-                      /\ (r1.ok /\ r1.n < Len(p)) => Dec(S, SubSeq(p, 1, r1.n), TRUE) = r1
-\* C03 reverse: the validating decoder accepts canonical bytes only
-Canonical(r1, e1) == InScope(r1) => e1 = Ok(SubSeq(p, 1, r1.n))
-\* C01 on every value a decoder can produce: it re-encodes, and decodes back to its canonical form
-RoundTripDecoded(r0, e0) ==
-  InScope(r0) => /\ e0.ok
-                 /\ Dec(S, e0.b, FALSE) = OkD(Canon(S, r0.v, TRUE), Len(e0.b))
-
-RECURSIVE ZW(_)
-RECURSIVE SumZW(_, _)
-SumZW(fs, i) == IF i > Len(fs) THEN 0 ELSE ZW(fs[i]) + SumZW(fs, i + 1)
-ZW(s) == CASE s.k \in {"slice", "arr"} -> (IF MinWidth(s.e) = 0 THEN 1 ELSE 0) + ZW(s.e)
-           [] s.k = "map" -> ZW(s.key) + ZW(s.val)
-           [] s.k = "struct" -> SumZW(s.f, 1)
-           [] s.k \in {"opt", "eptr"} -> ZW(s.t)
-           [] s.k = "iface" -> SumZW([j \in 1..Len(s.alts) |-> s.alts[j].t], 1)
-           [] OTHER -> 0
-\* C02: what a decoder builds is bounded by what it consumed, not by a length field
-\* (every dynamic element costs at least one input byte unless the element type is empty: 255 per such slice)
-SizeBounded(r0) == r0.ok => Size(S, r0.v) <= 2 * r0.n + Static(S) + 260 * ZW(S)
-
+(* ---------------------------------------------------------------- byte-string states *)
 Row(r0, r1, e0, e1) == [s |-> Cat[sid].name, b |-> p, r0 |-> r0, r1 |-> r1, e0 |-> e0, e1 |-> e1,
                         oos |-> r0.ok /\ Oos(S, r0.v)]
-
-BytesGood ==
-  mode = "bytes" =>
-    LET r0 == Dec(S, p, FALSE)
-        r1 == Dec(S, p, TRUE)
-        e0 == IF r0.ok THEN Enc(S, r0.v, FALSE) ELSE Err
-        e1 == IF r0.ok THEN Enc(S, r0.v, TRUE) ELSE Err IN
-    /\ Chk("Bounded", Bounded(r0, r1))
-    /\ Chk("ValidationRestricts", ValidationRestricts(r0, r1))
-    /\ Chk("PrefixOnly", PrefixOnly(r0, r1))
-    /\ Chk("Canonical", Canonical(r1, e1))
-    /\ Chk("RoundTripDecoded", RoundTripDecoded(r0, e0))
-    /\ Chk("SizeBounded", SizeBounded(r0))
-    /\ (Emit => PrintT(<<"ROW", ToJson(Row(r0, r1, e0, e1))>>))
+EmitRow(r0, r1, e0, e1) == Emit => PrintT(<<"ROW", ToJson(Row(r0, r1, e0, e1))>>)
+BytesGood == mode = "bytes" => BytesGoodFor(S, p, EmitRow)
 
 (* ---------------------------------------------------------------- value states *)
 VS == Vals(S, ValDepth)
-
-VGood(v) ==
-  LET e0 == Enc(S, v, FALSE)
-      e1 == Enc(S, v, TRUE)
-      c  == Canon(S, v, TRUE)
-      rv == Rev(S, v) IN
-  \* validation only restricts the encoder and never changes the bytes
-  /\ Chk("ValidationRestrictsEnc", e1.ok => e0 = e1)
-  \* C01: every encodable value round-trips (up to the canonical order) and all bytes are consumed
-  /\ Chk("RoundTrip", e0.ok => Dec(S, e0.b, FALSE) = OkD(c, Len(e0.b)))
-  /\ Chk("RoundTripV", e1.ok => Dec(S, e1.b, TRUE) = OkD(c, Len(e1.b)))
-  \* C01: the bytes do not depend on the order in which map entries (sorted slices) are presented
-  /\ Chk("OrderIndependent", Enc(S, rv, FALSE) = e0 /\ Enc(S, rv, TRUE) = e1)
-  \* C03: the canonical form encodes to the same bytes
-  /\ Chk("CanonSameBytes", e0.ok => Enc(S, c, FALSE) = e0)
-  /\ (Emit => PrintT(<<"VROW", ToJson([s |-> Cat[sid].name, v |-> v, e0 |-> e0, e1 |-> e1, c |-> c])>>))
-
-ValuesGood == (mode = "vals" /\ Len(p) = 0) => LET vs == VS IN \A i \in 1..Len(vs) : VGood(vs[i])
+ValuesGood ==
+  (mode = "vals" /\ Len(p) = 0) =>
+     LET vs == VS IN
+     \A i \in 1..Len(vs) :
+        LET EmitV(e0, e1, c) == Emit => PrintT(<<"VROW", ToJson([s |-> Cat[sid].name, v |-> vs[i], e0 |-> e0, e1 |-> e1, c |-> c])>>)
+        IN  ValGoodFor(S, vs[i], EmitV)
 
 \* the catalogue itself is well formed for the model (no unbounded loop over empty elements)
 RECURSIVE WellFormed(_)
